@@ -21,6 +21,9 @@ type Obj struct {
 	Aux   interface{} // engine side data (table handle, location, regexp, ...)
 	Name  string
 	Epoch int // creation epoch (footprint analysis)
+	// Released: handed to a sync.Pool and not taken out again: any further access by the releasing
+	// call can coincide with another goroutine's use of the object
+	Released bool
 }
 
 type Ptr struct {
